@@ -441,6 +441,7 @@ pub fn spec(id: &str, variant: &str, cancelable: bool, thorough: bool) -> Option
                 cycles: (0, 6),
                 sched_len: (0, 40),
                 templates: vec![(2, Template::CrossQueue), (1, Template::FanIn)],
+                idle_pct: 2,
                 ..base.clone().set(&[
                     (K::Bulk, 2),
                     (K::CollectorStart, 2),
@@ -496,6 +497,7 @@ pub fn spec(id: &str, variant: &str, cancelable: bool, thorough: bool) -> Option
                 sched_len: (0, 40),
                 cancelable: Some(true),
                 templates: vec![(2, Template::CrossQueue), (4, Template::FanIn)],
+                idle_pct: 3,
                 ..base.clone().set(&[
                     (K::Bulk, 3),
                     (K::Volley, 1),
@@ -538,6 +540,7 @@ pub fn spec(id: &str, variant: &str, cancelable: bool, thorough: bool) -> Option
                 sched_len: (0, 40),
                 cancelable: Some(cancelable),
                 templates: if cancelable { vec![(3, Template::CrossQueue), (1, Template::FanIn), (2, Template::OverflowReplay)] } else { vec![(3, Template::CrossQueue), (1, Template::FanIn)] },
+                idle_pct: 2,
                 ..base.clone().set(&[
                     (K::Bulk, 1),
                     (K::Cancel, 9),
@@ -596,6 +599,7 @@ pub fn spec(id: &str, variant: &str, cancelable: bool, thorough: bool) -> Option
                 sched_len: (0, 40),
                 cancelable: Some(cancelable),
                 templates: vec![(3, Template::CrossQueue), (2, Template::FullExit)],
+                idle_pct: 3,
                 ..base.clone().set(&[
                     (K::Bulk, 1),
                     (K::Root, 16),
@@ -686,6 +690,8 @@ pub fn spec(id: &str, variant: &str, cancelable: bool, thorough: bool) -> Option
                 ..base.clone().set(&[
                     (K::EnterLocal, 18),
                     (K::Many, 2),
+                    // a long-lived worker thread: tens of thousands of scopes opened and closed before
+                    (K::Churn, 1),
                     (K::ChildOfLocal, 9),
                     (K::MultiChild, 7),
                     (K::Flush, 3),
@@ -994,6 +1000,8 @@ pub fn spec(id: &str, variant: &str, cancelable: bool, thorough: bool) -> Option
                     cycles: (0, 5),
                     sched_len: (0, if sched { 40 } else { 24 }),
                     adapter_kinds: kinds,
+                    templates: if sched { vec![] } else { vec![(1, Template::PoolAdapter)] },
+                    pool_pct: if sched { 0 } else { 2 },
                     ..base.clone().set(&[
                         (K::Wrap, 12),
                         (K::Drive, 30),
